@@ -18,6 +18,8 @@ claimed = {
  "C08": ("W-proxy", "malformed-input clients (single-field corruptions of valid frames: every length field <- 0,1,2,3,max,truth+-1,2^31; truncation (+FIN); random bytes; flipped bytes; inserted bytes; HTTP/1 absurd Content-Length / bad chunk size / header without colon) and upstreams answering with garbage or corrupted replies, next to ordinary clients whose requests must still each get exactly one outcome in bounded time with no cross-talk; the process must survive (a Go panic/fatal error with a MOSN frame on the stack is a violation), no allocation > 64 MiB for announced-but-unarrived bytes by MOSN's own decoders", "bolt, boltv2, HTTP/1 and the Auto matcher only in this snapshot; HPACK / HTTP/2 frames not yet; a step that never quiesces is reported as infrastructure failure (exit 2), not as a violation", "4 C08"),
  "C14": ("W-proxy", "chains of 1-6 scripted stream filters (registered through api.RegisterStream; every receive phase, send filters) whose per-request verdicts (continue, stop, terminate, hijack, hijack with body, direct response, re-match, re-choose) travel in a request header; the recorded call log is compared with a reference model of the statement (order, once per pass, resume at the requesting filter), an answered or terminated request must never appear at any upstream, an answered request gets exactly that reply, and every response passes the send filters in order; all under the upstream faults and schedules of the C03 arm", "bolt, boltv2, HTTP/1; a response discarded in favour of a retry may pass the send filters too (k complete passes, k <= 1 + answered attempts)", "4 C14"),
  "C17": ("W-proxy", "generated route configurations (request/response header add with append true/false and remove at route, virtual-host and router level; prefix / regex path rewrite and host rewrite towards HTTP/1 upstreams; redirect with scheme/host/path/code; direct response with status/body; retry policy with retry_on, num_retries, status_codes, per-try timeout; timeout sources: protocol-supplied, x-mosn-global-timeout header, route, default) over bolt, boltv2 and HTTP/1; the per-attempt upstream log and the single downstream reply are compared with a small reference model written from the statement, under scripted per-attempt upstream outcomes", "attempts that fail to connect are not modelled (every host accepts in this arm); with a per-try timeout configured the retry-condition clause is not judged (any attempt may legitimately time out in the simulated network); the fresh-host clause is judged only for the HTTP/1 pool with request-round-robin and no per-try timeout; attempts <= 1+max(3,num_retries) as the property's anchor defines the budget", "4 C17"),
+ "C12": ("W-update", "histories of 3-12 runtime updates on a running MOSN (whole-router replace, AddRoute / RemoveAllRoutes on named and default virtual hosts, cluster add/update with and without hosts, multi-name cluster delete, host replace / append / delete, multi-locality xDS endpoint assignments through the real istio converter, listener add / update / delete, repeated, no-op and invalid operations) interleaved with bolt traffic; after every operation the live route tables (a battery of MatchRoute lookups) and host sets are compared with (a) a reference model of the update history and (b) objects freshly built from the unredacted dumped configuration; 4 s after the last update the persisted file must equal the effective configuration; every request is judged against the configurations in force while it was in flight", "the mosn_debug-tagged admin handlers are thin wrappers over the same manager calls and are not compiled in; a connection keeps the listener filter configuration (router binding) it was accepted with; LB policy of the live cluster is not compared", "4 C12"),
+ "C20": ("W-update", "a distinct marker key is planted (by reflection over the loaded v2.MOSNConfig, filling empty TLS positions) in every TLS context of the configuration - listener tls_context, tls_context_set, cluster contexts, cluster-manager context - and in every listener added/updated at run time; between the runtime updates of the C12 history every config_dump variant (none, mosnconfig, allrouters, allclusters, alllisteners, router=, cluster=, listener=, unknown key) and DumpJSON is called on the live MOSN and scanned for every marker; the effective configuration before/after the dump calls must be equal (canonical JSON), every key it held must still be there, and the persisted file must hold real keys, not the placeholder", "TLS handshakes themselves are outside the simulated transport (C13 note): 'TLS keeps working' is judged as 'the live configuration still holds the real key'", "4 C20"),
 }
 
 na = {
@@ -26,7 +28,7 @@ na = {
  "C15": "subset selection and both builders are pure functions of (host metadata, selectors, fallback policy, criteria); no schedule, time, fault or history in the statement",
  "C19": "load/dump round trip is a pure function of the configuration; no time, I/O fault, concurrency or history in the statement",
 }
-pending = ["C11","C12","C18","C20"]
+pending = ["C11","C18"]
 
 def main():
     checks=[]
@@ -60,6 +62,7 @@ def main():
       },
       "engines":[
         {"name":"W-proxy","path":"/verif/worlds/proxy.go","serves_properties":[p for p,v in claimed.items() if v[0]=="W-proxy"],"kind_free_text":"real MOSN (Init/Start from generated JSON) in one synctest bubble per worker process, simulated listener/dialer/connections, scripted protocol peers, seeded scheduler"},
+        {"name":"W-update","path":"/verif/worlds/update.go","serves_properties":[p for p,v in claimed.items() if v[0]=="W-update"],"kind_free_text":"real MOSN started from a configuration file (auto_config persistence on), runtime update operations and admin dump calls as scheduler events on their own goroutines, bolt traffic through the simulated network, reference model of the configuration"},
         {"name":"W-lb","path":"/verif/worlds/lb.go","serves_properties":[p for p,v in claimed.items() if v[0]=="W-lb"],"kind_free_text":"real simpleCluster + host sets + load balancers; lookup/update/flip tasks as goroutines parked and released one at a time by the seeded scheduler; many bubbles per worker process"},
         {"name":"W-health","path":"/verif/worlds/health.go","serves_properties":[p for p,v in claimed.items() if v[0]=="W-health"],"kind_free_text":"real health flag store and real healthChecker/sessionChecker with a scripted session on the synctest fake clock"},
       ],
